@@ -486,6 +486,12 @@ def qbInnerStep (xinbta y prev acu : α) (s : Inn α) : Sum (Inn α) (Inn α × 
     else .inl ⟨s.g / three, adj, tx⟩
   else .inl ⟨s.g / three, adj, s.tx⟩
 
+/-- the inner loop :532-547 with its cap; `true` = `goto L_converged` -/
+def qbInner (xinbta y prev acu adj tx : α) : Inn α × Bool :=
+  match iterCap (qbInnerStep xinbta y prev acu) niterations ⟨one, adj, tx⟩ with
+  | .inl st => (st, false)
+  | .inr r => r
+
 /-- one round of the outer loop; exit = `L_converged` with `xinbta`, or the outcome of `pBeta` when
 that is not a value -/
 def qbOuterStep (pb : α → α → α → R α) (a pp qq lnbeta acu : α) (s : Nw α) : Sum (Nw α) (R α) :=
@@ -497,10 +503,7 @@ def qbOuterStep (pb : α → α → α → R α) (a pp qq lnbeta acu : α) (s : 
     let t := one - qq
     let y := (y0 - a) * exp (lnbeta + r * log s.xinbta + t * log (one - s.xinbta))
     let prev := if leb (y * s.yprev) zero then Scalar.max (abs s.adj) fpu else s.prev
-    let fin : Inn α × Bool :=
-      match iterCap (qbInnerStep s.xinbta y prev acu) niterations ⟨one, s.adj, s.tx⟩ with
-      | .inl st => (st, false)
-      | .inr r => r
+    let fin : Inn α × Bool := qbInner s.xinbta y prev acu s.adj s.tx
     if fin.2 then .inr (.val s.xinbta)
     else if ltb (abs (fin.1.tx - s.xinbta)) fpu then .inr (.val s.xinbta)
     else .inl ⟨fin.1.tx, y, fin.1.adj, prev, fin.1.tx⟩
